@@ -105,6 +105,11 @@ fn(
 )
 
 fn("hypercorn.protocol.h2:StreamBuffer.drain", params={}, modifies=[], effect="yields",
+   # C09 "followed by exactly one END_STREAM" / C02: drain() is what keeps the application's task
+   # behind the send task -- it always waits for the empty signal, which only a pop by the send task
+   # gives (a buffer that holds nothing has not been looked at by the send task yet: END_STREAM for a
+   # bodiless response is still to come)
+   ensures=[("C09.drain.waits-for-the-send-task", "count_calls('Event.wait') == 1", "C09,C02,C08")],
    # drain() is called on a registered buffer (by stream_send, after set_complete)
    requires=[("drain.pre.registered", "implies(self._complete, self.g_end_requested)")],
    props=("C08",))
